@@ -157,6 +157,15 @@ fn verify_no_overlap_contiguous(
     Ok(())
 }
 
+/// Verification hook: the overlap predicate used by the sanity checker.
+#[cfg(feature = "mmtk_verif")]
+pub(crate) fn verif_verify_no_overlap_contiguous(
+    spec_1: &SideMetadataSpec,
+    spec_2: &SideMetadataSpec,
+) -> bool {
+    verify_no_overlap_contiguous(spec_1, spec_2).is_ok()
+}
+
 /// (For chunked metadata) Checks whether two input specifications overlap, considering their offsets and maximum per-chunk size.
 ///
 /// Returns `Err` if overlap is detected.
